@@ -193,7 +193,9 @@ Fixpoint dec_xhops (fuel : nat) (l : list Z) : list xhop :=
                          | o :: a :: b :: t0 => match dec_ecall t0 with
                                                 | Some (e, t') => XCall (nat_ o) e (dec_sog a b) :: dec_xhops f t'
                                                 | None => [] end
-                         | _ => [] end else []
+                         | _ => [] end else
+      if code =? 18 then match t with o :: sc :: j :: k :: i :: t' => XSetSchedItem (nat_ o) (nat_ sc) (nat_ j) (nat_ k, nat_ i) :: dec_xhops f t' | _ => [] end else
+      if code =? 19 then match t with o :: sc :: t0 => let (l', t') := take t0 in XSetSchedOuter (nat_ o) (nat_ sc) (pairs l') :: dec_xhops f t' | _ => [] end else []
     | [] => []
     end
   end.
@@ -217,7 +219,7 @@ Definition op_xflow : opfun := fun zs _ =>
   | cnt :: body =>
       let hs := dec_xhops (length body) body in
       if negb (Z.of_nat (length hs) =? cnt) then Err (-2) else
-      let (rs, w) := xexec fdraw fmkgen fgseed hs {| base := fworld0; conts := fun _ => econt0 |} in
+      let (rs, w) := xexec fdraw fmkgen fgseed hs {| base := fworld0; conts := fun _ => econt0; stags := fun _ => []; ntag := O |} in
       Ok (map qz (Z.of_nat (length rs) :: flat_map enc_xres rs ++ enc_world (base w)
                   ++ flat_map (fun o => enc_cont (conts w o)) (seq O (nobj (base w)))))
   | [] => Err (-1)
